@@ -164,6 +164,14 @@ def gen_program(rng, cid):
             prog.append(("slow", b"\x03" + ("SELECT k FROM slow%d" % (cid * 100 + slow)).encode(), None, cid * 100 + slow))
         elif r < 0.985:
             prog.append(("query", b"\x03SELECT a FROM plain", None, None))
+        if rng.random() < 0.12:
+            # back to the DEFAULT character set (the same for every connection, whatever anybody logged in with), then a
+            # literal with bytes above 0x7F answered by the library: what comes back shows which set decoded it
+            sql, ml = rng.choice([("SET NAMES DEFAULT", "var set N|*|*"), ("SET character_set_client = DEFAULT", "var set V|S|character_set_client|D"),
+                                  ("SET CHARACTER SET DEFAULT", "var set C|*")])
+            prog.append(("set", b"\x03" + sql.encode(), ml, sql))
+        if rng.random() < 0.15:
+            prog.append(("query", b"\x03SELECT '\xc3\xa9'", None, None))
         else:
             pass
         if rng.random() < 0.25:
@@ -193,6 +201,14 @@ def split_responses(raw):
     return out
 
 
+LOGIN_CHARSETS = [(255, "utf8mb4"), (8, "latin1"), (51, "cp1251"), (9, "latin2")]
+
+
+def login_charset(user):
+    """each user logs in with its own collation (a function of the user, so that the run alone logs in the same way)"""
+    return LOGIN_CHARSETS[int(user[4:]) % len(LOGIN_CHARSETS)]
+
+
 async def login_all(srv_apps, rng, capslist, users, overlapping=True):
     """handshakes of all connections, interleaved: greet all, then answer in random order"""
     idp = SharedIDP()
@@ -219,7 +235,7 @@ async def login_all(srv_apps, rng, capslist, users, overlapping=True):
         a.caps = int(caps) & a.greeting["caps"]
         user = users[i]
         resp = scramble(("pw-" + user).encode(), a.greeting["nonce"])
-        a.t.feed(pkt(1, hs_response(user, auth=resp, caps=caps)))
+        a.t.feed(pkt(1, hs_response(user, auth=resp, caps=caps, charset=login_charset(user)[0])))
         if rng.random() < 0.5:
             await settle(rng.randrange(0, 4))
     await settle()
@@ -345,6 +361,9 @@ async def case(chk, rng, idx):
         lines.append("@%d var force external_user s%s" % (idx * 8 + i + 1, ("user%d" % i).encode().hex()))
         impl.append("ok")
         descs.append(dict(desc, connection=i, step="user"))
+        lines.append("@%d var set V|S|character_set_client|s%s" % (idx * 8 + i + 1, login_charset("user%d" % i)[1].encode().hex()))
+        impl.append("ok")
+        descs.append(dict(desc, connection=i, step="login charset"))
         lines.append("@%d cur reset" % (idx * 8 + i + 1))
         impl.append("ok")
         descs.append(dict(desc, connection=i, step="cur reset"))
